@@ -59,13 +59,21 @@ def make_proxy_class(cluster, owner):
             if event_type == InternalEventHeaders.REQUEST:
                 if body[0] == RequestHeaders.CHECK_INSTANCE.value:
                     cluster.pending[owner].append(idx(self.status.identifier))
+                    cluster.pending_ts[owner].append(svenv.CLOCK.now)
                 else:
                     cluster.requests[owner].append((idx(self.status.identifier), body[0]))
             elif event_type == InternalEventHeaders.PUBLICATION:
-                # deferred: the proxy thread evaluates its filter after the main thread has finished the step
-                cluster.deferred[owner].append((self, message))
+                # queued like in the real thread: the proxy thread evaluates its filter after the main thread has
+                # finished the step (RealCluster.flush)
+                self.queue.put_nowait(message)
+                cluster.deferred[owner].append(self)
             else:
                 self.process_event(message)
+
+        def stop(self):
+            # a stopped proxy thread never serves its backlog
+            while not self.queue.empty():
+                self.queue.get_nowait()
 
         def send_remote_comm_event(self, event_type, event):
             dst = idx(self.status.identifier)
@@ -74,6 +82,10 @@ def make_proxy_class(cluster, owner):
                 cluster.inbox[owner].append(msg)
             elif (owner, dst) not in cluster.cut:
                 cluster.chan.setdefault((owner, dst), []).append(msg)
+            else:
+                # the XML-RPC over a cut link fails (OSError in xml_rpc)
+                from supvisors.internal_com.supervisorproxy import SupervisorProxyException
+                raise SupervisorProxyException
     return FakeProxy
 
 
@@ -84,6 +96,7 @@ class RealCluster:
         self.cfg, self.members = cfg, list(members)
         self.supv, self.rec, self.up, self.cnt = {}, {}, {}, {}
         self.pending, self.inbox, self.deferred, self.requests = {}, {}, {}, {}
+        self.pending_ts = {}   # harness-only: when each pending CHECK_INSTANCE request was queued
         self.chan, self.cut = {}, set()
         self.suite = suite
         for k in self.members:
@@ -105,12 +118,15 @@ class RealCluster:
         self.supv[k], self.rec[k] = supv, rec
         self.up[k], self.cnt[k] = True, 0
         self.pending[k], self.inbox[k], self.deferred[k], self.requests[k] = [], [], [], []
+        self.pending_ts[k] = []
 
     def flush(self, k):
         """ the proxy threads of node k handle the publications queued during the step """
         items, self.deferred[k] = self.deferred[k], []
-        for proxy, message in items:
-            proxy.process_event(message)
+        for proxy in items:
+            # one message per entry: global FIFO order of the pushes (publication-major, peers in mapper order)
+            if not proxy.queue.empty():
+                proxy.process_event(proxy.queue.get_nowait())
 
     def lst(self, k):
         supv = self.supv[k]
@@ -132,7 +148,6 @@ class RealCluster:
             self.cnt[i] += 1
             supv.context.on_local_tick_event(p)
             supv.fsm.on_timer_event(p)
-            self.flush(i)
             supv.rpc_handler.send_tick_event(p)
             self.flush(i)
         elif kind == 'ADeliver':
@@ -157,6 +172,7 @@ class RealCluster:
             if not self.pending[i] or not self.up[i]:
                 return
             j = self.pending[i].pop(0)
+            self.pending_ts[i].pop(0)
             svenv.CLOCK.now = now
             proxy = self.supv[i].rpc_handler.proxy_server.get_proxy(ident(j))
             if proxy:
@@ -183,6 +199,7 @@ class RealCluster:
             i = a[1]
             self.up[i] = False
             self.inbox[i], self.pending[i], self.deferred[i] = [], [], []
+            self.pending_ts[i] = []
         elif kind == 'ARestart':
             i = a[1]
             if not self.up[i]:
@@ -286,7 +303,9 @@ class ClusterSuite(Suite):
                     now += 1     # the proxy thread reads the clock after the main thread has entered CHECKING
                     if rng.random() < 0.25:
                         # a slow handshake: it started some time ago (possibly before a new CHECKING period)
-                        a = ('AHandshakeLate', ch[1], now - rng.choice([1, 4, 8, 20, 45]), now)
+                        # (never before the request was queued)
+                        ts = max(now - rng.choice([1, 4, 8, 20, 45]), int(cl.pending_ts[ch[1]][0]) + 1)
+                        a = ('AHandshakeLate', ch[1], ts, now)
                     else:
                         a = ('AHandshake', ch[1], now)
                 elif ch[0] == 'notify':
@@ -301,46 +320,7 @@ class ClusterSuite(Suite):
             except Exception:
                 return (cfg, members, acts)
         if self.quiet_rounds:
-            # disturbances stop: every link is healed, nobody crashes any more; K rounds of (tick every live
-            # instance, then serve every handshake / notification / publication until nothing is pending)
-            quiet = [(False, False, False)] * drv_node.N_ORC
-            try:
-                for (i, j) in sorted(cl.cut):
-                    a = ('AHeal', i, j)
-                    acts.append(a)
-                    cl.apply(a)
-                for _ in range(self.quiet_rounds):
-                    for i in members:
-                        if cl.up[i]:
-                            now += 5
-                            a = ('ATick', i, now, quiet)
-                            acts.append(a)
-                            cl.apply(a)
-                    progress = True
-                    while progress:
-                        progress = False
-                        for i in members:
-                            if not cl.up[i]:
-                                continue
-                            while cl.pending[i]:
-                                now += 1
-                                a = ('AHandshake', i, now)
-                                acts.append(a)
-                                cl.apply(a)
-                                progress = True
-                            while cl.inbox[i]:
-                                a = ('ANotify', i, now, quiet)
-                                acts.append(a)
-                                cl.apply(a)
-                                progress = True
-                            for j in members:
-                                while cl.chan.get((j, i)):
-                                    a = ('ADeliver', i, j, now, quiet)
-                                    acts.append(a)
-                                    cl.apply(a)
-                                    progress = True
-            except Exception:
-                pass
+            self.quiet_tail(cl, members, acts, now)
         return (cfg, members, acts)
 
     def execute(self, inp):
@@ -434,9 +414,70 @@ class ClusterSuite(Suite):
             return repr((sorted(states), sorted(masters), len(inp[2]), inp[1]))
         return None
 
+    def quiet_tail(self, cl, members, acts, now):
+        """ disturbances stop: every link is healed, nobody crashes any more; K rounds of (tick every live
+        instance, then serve every handshake / notification / publication until nothing is pending) """
+        quiet = [(False, False, False)] * drv_node.N_ORC
+
+        def do(a):
+            acts.append(a)
+            cl.apply(a)
+        try:
+            for (i, j) in sorted(cl.cut):
+                do(('AHeal', i, j))
+            for _ in range(self.quiet_rounds):
+                for i in members:
+                    if cl.up[i]:
+                        now += 5
+                        do(('ATick', i, now, quiet))
+                progress = True
+                while progress:
+                    progress = False
+                    for i in members:
+                        if not cl.up[i]:
+                            continue
+                        while cl.pending[i]:
+                            now += 1
+                            do(('AHandshake', i, now))
+                            progress = True
+                        while cl.inbox[i]:
+                            do(('ANotify', i, now, quiet))
+                            progress = True
+                        for j in members:
+                            while cl.chan.get((j, i)):
+                                do(('ADeliver', i, j, now, quiet))
+                                progress = True
+        except Exception:
+            pass
+
     def shrink_candidates(self, inp):
         cfg, members, acts = inp
-        return [(cfg, members, cut) for cut in list_cuts(list(acts))]
+        acts = list(acts)
+        if not self.quiet_rounds:
+            return [(cfg, members, cut) for cut in list_cuts(acts)]
+        # keep the meaning of "ends with quiet rounds": only the disturbed prefix is cut, the quiet tail is
+        # regenerated against the real cluster
+        quiet = [(False, False, False)] * drv_node.N_ORC
+        split = 0
+        for k, a in enumerate(acts):
+            if a[0] in ('ACrash', 'ARestart', 'ACut', 'AHandshakeLate') or \
+                    (a[0] in ('ATick', 'ANotify', 'ADeliver') and [tuple(o) for o in a[-1]] != quiet):
+                split = k + 1
+        out = []
+        for cut in list_cuts(acts[:split]):
+            self.ensure_clock()
+            svenv.CLOCK.now = 1000
+            cl = RealCluster(self, cfg, members)
+            cut, now = list(cut), 1000
+            try:
+                for a in cut:
+                    cl.apply(a)
+                    now = max([now] + [x for x in a[1:] if isinstance(x, int) and x >= 1000])
+            except Exception:
+                continue
+            self.quiet_tail(cl, members, cut, now)
+            out.append((cfg, members, cut))
+        return out
 
     def size_of(self, inp):
         return len(inp[2])
